@@ -182,6 +182,70 @@ def run(ctx):
             ctx.report("public key-set export changes kids", {"names": names}, "keyset:public-kids")
     foreign_jwks(ctx, n_sets)
     jwe_consume(ctx, max(4, n_sets // 3))
+    after_rotation(ctx, max(3, n_sets // 3))
+
+
+def after_rotation(ctx, n_sets):
+    """A key set is a live object (`KeySet.keys` is a public list): the member named by a kid is the one the set holds NOW.
+    Each kid is first resolved (a token verified / decrypted / produced with it), then the application retires that key
+    (removes it, or replaces it by another key under the same kid); afterwards the kid names nothing (invalid-key-id) or the
+    replacement - never the retired key - for `get_by_kid`, verification, decryption and signing, on the same set object."""
+    from joserfc import jws, jwe
+    from joserfc.jwk import KeySet
+    rng = ctx.rng
+    jwe_all = list(jwe.JWERegistry.algorithms["alg"]) + list(jwe.JWERegistry.algorithms["enc"]) + ["DEF"]
+    for _ in range(n_sets):
+        plans = [("p256", "p256b", "ES256", None), ("oct32", "oct16", "HS256", None), ("rsa2048", "rsa2048b", "RS256", None), ("oct16", "oct32", None, "A128KW")]
+        kn_old, kn_new, sig_alg, enc_alg = rng.choice(plans)
+        old = K.key(kn_old, private=True, kid="current")
+        new = K.key(kn_new, private=True, kid="current")
+        other = K.key("ed25519", private=True, kid="bystander")
+        ks = KeySet([other, old])
+        if sig_alg:
+            tok = jws.serialize_compact({"alg": sig_alg, "kid": "current"}, b"signed by the retired key", ks, algorithms=J.ALL_ALGS)
+            use = lambda: jws.deserialize_compact(tok, ks, algorithms=J.ALL_ALGS).payload       # noqa: E731
+        else:
+            tok = jwe.encrypt_compact({"alg": enc_alg, "enc": "A128GCM", "kid": "current"}, b"for the retired key", ks, algorithms=jwe_all)
+            use = lambda: jwe.decrypt_compact(tok, ks, algorithms=jwe_all).plaintext              # noqa: E731
+        assert use()
+        assert ks.get_by_kid("current") is old
+        for mode in ("removed", "replaced"):
+            if mode == "removed":
+                ks.keys[:] = [k for k in ks.keys if k is not old and k is not new]
+            else:
+                ks.keys[:] = [k for k in ks.keys if k is not old and k is not new] + [new]
+            try:
+                got = ks.get_by_kid("current")
+                out = "retired-key" if got is old else ("replacement" if got is new else "other")
+            except Exception as e:  # noqa: BLE001
+                out = err_name(e)
+            want = "InvalidKeyIdError" if mode == "removed" else "replacement"
+            ctx.count("after-rotation", (kn_old, mode, "get_by_kid"), True, f"{mode}:get_by_kid:{out}")
+            if out != want:
+                ctx.report(f"get_by_kid after the key named by the kid was {mode} from the set: {out} (expected {want})",
+                           {"old": kn_old, "mode": mode, "set_kids": [k.kid for k in ks.keys]}, f"rotation:{mode}:get_by_kid")
+            try:
+                use()
+                out = "accepted"
+            except Exception as e:  # noqa: BLE001
+                out = err_name(e)
+            ctx.count("after-rotation", (kn_old, mode, "consume"), True, f"{mode}:consume:{out}")
+            if out == "accepted":
+                ctx.report(f"a token made with the retired key was still {'verified' if sig_alg else 'decrypted'} after that key was {mode} in the set "
+                           f"(the set now holds kids {[k.kid for k in ks.keys]})", {"old": kn_old, "mode": mode, "token": tok}, f"rotation:{mode}:consume")
+            elif mode == "removed" and out != "InvalidKeyIdError":
+                ctx.report(f"consuming a token whose kid was removed from the set: {out} instead of InvalidKeyIdError", {"old": kn_old, "token": tok}, "rotation:removed:error-class")
+            if sig_alg and mode == "replaced" and K._SPECS[kn_new][0] == K._SPECS[kn_old][0]:
+                try:
+                    t2 = jws.serialize_compact({"alg": sig_alg, "kid": "current"}, b"new", ks, algorithms=J.ALL_ALGS)
+                    only_new = KeySet([K.key(kn_new, private=False if not kn_new.startswith("oct") else True, kid="current")])
+                    jws.deserialize_compact(t2, only_new, algorithms=J.ALL_ALGS)
+                    out = "signed-by-replacement"
+                except Exception as e:  # noqa: BLE001
+                    out = err_name(e)
+                ctx.count("after-rotation", (kn_old, mode, "produce"), True, f"{mode}:produce:{out}")
+                if out != "signed-by-replacement":
+                    ctx.report(f"signing with the kid after its key was replaced did not use the replacement: {out}", {"old": kn_old, "new": kn_new}, "rotation:replaced:produce")
 
 
 # (every entry has its own key material: two kids over the same octets would make "the kid of another key" decrypt)
